@@ -89,7 +89,8 @@ def configs(draw, tier):
     closes = [draw(st.one_of(st.none(), st.none(), st.integers(0, length + 1))) for _ in range(n)]
     cancel = draw(st.one_of(st.none(), st.tuples(st.integers(0, n - 1), st.integers(1, 8))))
     return {"n": n, "lock": lock, "lock_susp": draw(st.booleans()) if lock else False,
-            "lock_release_susp": draw(st.booleans()) if lock else False, "susp": susp,
+            "lock_release_susp": draw(st.booleans()) if lock else False,
+            "lock_falsy": draw(st.booleans()) if lock else False, "susp": susp,
             "length": length, "closes": closes, "cancel": list(cancel) if cancel else None,
             "between": draw(st.booleans()), "close_after_cancel": draw(st.booleans()),
             "choices": draw(st.lists(st.integers(0, 3), max_size=60))}
@@ -101,6 +102,8 @@ def run_config(case, choices=None, default="rr"):
     src = LazySource(ctx, case["length"], case["susp"])
     lock = Lock(ctx, "lock", suspend_uncontended=case["lock_susp"],
                 release_susp=case.get("lock_release_susp", False)) if case["lock"] else None
+    if lock is not None and case.get("lock_falsy"):
+        lock.falsy = True
     handle = a.tee(src, n, lock=lock) if lock is not None else a.tee(src, n)
     children = list(handle)
     got = [[] for _ in range(n)]
